@@ -1,4 +1,8 @@
+import os, importlib.util
 from vlib import Job
+_spec = importlib.util.spec_from_file_location('c01jobs', os.path.join(os.path.dirname(__file__), '..', 'C01', 'jobs.py'))
+_c01 = importlib.util.module_from_spec(_spec); _spec.loader.exec_module(_c01)
+ksjob = _c01.ksjob
 
 META = dict(
     bounds='MPMC / batch-MPMC / SPSC ring queues of capacity 2 (and 4 in thorough): up to 2 producers x <=2 pushes, up to 2 consumers x <=2 pop attempts, every interleaving of the atomic steps, '
@@ -25,4 +29,11 @@ def jobs(tier):
                      nochecks=True, unwinding_assertions=False, timeout=700 if q else 4000, mem_gb=8,
                      desc='%s queue cap %d: %d producers x %d pushes, %d consumers x %d pops, <= %d slices' % (nm, cap, np_, kp, nc, kc, slices),
                      bounds='capacity %d, %dP x %d, %dC x %d, pre-emption before every atomic operation, <= %d execution slices, retry loops unwound 4, SC' % (cap, np_, kp, nc, kc, slices)))
+    # RingChannel notification protocol (semaphores as contracts, pre-emption before every atomic operation and blocking call)
+    def ch(name, nt, slices, D, **kw):
+        j = ksjob(name, 'C07/h_chan.cpp', nt, slices, D, preempt=True, stuck_legal=True, unwind=3, **kw)
+        j.cbmc += ['-DVERIF_WORLD_STEP']; j.roots = ['^@thread_entry_', '^@K_', '^@world_']; j.unwinding_assertions = False
+        J.append(j)
+    if not q: ch('chan_1p1c', 2, 4, ['NPROD=1', 'KSEND=1', 'NRECV=1'], desc='RingChannel: 1 send, 1 recv on different vCPUs (consumer idle registration vs. producer idler check)', timeout=3000, mem_gb=16)
+    if not q: ch('chan_full_1p1c', 2, 4, ['NPROD=1', 'KSEND=1', 'NRECV=1', 'PREFILL=2', 'PROCESS_YIELD'], desc='RingChannel: full ring, 1 blocked send, 1 recv that then processes the element (sender notification)', timeout=3000, mem_gb=16)
     return J
